@@ -77,7 +77,7 @@ class Tracer(finite.Machine):
                 if isinstance(t, ast.Name):
                     st[t.id] = finite.Sym(f'{t.id}<-{unparse(s.value)}')
             return st
-        if isinstance(s, ast.Assign) and len(s.targets) == 1 and isinstance(s.targets[0], ast.Subscript):
+        if isinstance(s, ast.Assign) and len(s.targets) == 1 and isinstance(s.targets[0], (ast.Subscript, ast.Attribute)):
             self.events.append(('store', unparse(s.targets[0]), unparse(s.value)))
             return st
         if isinstance(s, ast.AugAssign):
